@@ -1,0 +1,29 @@
+//go:build verif
+
+package fzf
+
+import (
+	"github.com/junegunn/fzf/src/util"
+)
+
+// Verification hooks (build tag verif): the walker of reader.go with a caller-supplied
+// pusher and a way to stop it. No logic: Run is Reader.readFiles, Stop is Reader.terminate
+// (what the terminal calls when the reader has to go away; the walker's callback then
+// returns context.Canceled). The pusher is called from several goroutines.
+
+type VerifWalk struct{ r *Reader }
+
+func VerifNewWalk(push func(string)) *VerifWalk {
+	return &VerifWalk{NewReader(
+		func(b []byte) bool {
+			push(string(b))
+			return true
+		},
+		util.NewEventBox(), util.NewExecutor(""), false, false)}
+}
+
+func (w *VerifWalk) Run(roots []string, file bool, dir bool, follow bool, hidden bool, ignores []string) bool {
+	return w.r.readFiles(roots, walkerOpts{file: file, dir: dir, follow: follow, hidden: hidden}, ignores)
+}
+
+func (w *VerifWalk) Stop() { w.r.terminate() }
